@@ -65,13 +65,26 @@ def _chain(e: ast.expr) -> list[str] | None:
 
 
 class _Tr:
-    def __init__(self, fn: ast.FunctionDef, ret: str, enums: set[str]) -> None:
+    def __init__(self, fn: ast.FunctionDef, ret: str, enums: set[str], effects: tuple[str, ...] = ()) -> None:
         self.fn, self.ret, self.enums = fn, ret, enums
+        self.effects = set(effects)            # side effects the caller declared irrelevant for the *value*
+        self.opaque: set[str] = set()          # locals holding an object obtained from a call with arguments
+        self.ignored: list[str] = []
         self.fields: dict[str, str] = {}
         self.reads: dict[str, str] = {}
         self.locals: dict[str, str] = {}       # name -> Lean type
 
     # ---- inputs ------------------------------------------------------------------------------
+    def named_input(self, name: str, e: ast.expr, ty: str) -> str:
+        if name in self.reads and self.reads[name] != ast.unparse(e):
+            raise Untranslatable(f"two different reads would both be called `{name}`")
+        old = self.fields.get(name)
+        if old is not None and old != ty:
+            raise Untranslatable(f"`{ast.unparse(e)}` used both as {old} and as {ty}")
+        self.fields[name] = ty
+        self.reads[name] = ast.unparse(e)
+        return f"i.{name}"
+
     def inp(self, e: ast.expr, ty: str) -> str:
         target = e.func if isinstance(e, ast.Call) else e
         ch = _chain(target)
@@ -111,6 +124,25 @@ class _Tr:
             return f"(!{self.expr(e.operand, 'Bool')})"
         if isinstance(e, ast.UnaryOp) and isinstance(e.op, ast.USub) and ty == "Rat":
             return f"(-{self.expr(e.operand, 'Rat')})"
+        if isinstance(e, ast.Compare) and ty == "Bool" and len(e.ops) == 1 and \
+                isinstance(e.ops[0], (ast.Is, ast.IsNot)) and isinstance(e.comparators[0], ast.Constant) \
+                and e.comparators[0].value is None:
+            ch = _chain(e.left)
+            if not ch:
+                raise Untranslatable(f"`{ast.unparse(e)}`")
+            v = self.named_input(ch[-1] + "_is_none", e.left, "Bool")
+            return v if isinstance(e.ops[0], ast.Is) else f"(!{v})"
+        if isinstance(e, ast.Call) and isinstance(e.func, ast.Name) and e.func.id == "len" and len(e.args) == 1 \
+                and ty == "Rat":
+            a = e.args[0]
+            ch = [a.id] if isinstance(a, ast.Name) and a.id in self.opaque else _chain(a)
+            if not ch:
+                raise Untranslatable(f"`{ast.unparse(e)}`")
+            return self.named_input("len_" + ch[-1], e, "Rat")
+        if isinstance(e, ast.Call) and isinstance(e.func, ast.Attribute) and isinstance(e.func.value, ast.Name) \
+                and e.func.value.id in self.opaque:
+            # a query on an object obtained earlier: its result is an input named after the method
+            return self.named_input(e.func.attr, e, ty)
         if isinstance(e, ast.Compare) and ty == "Bool" and len(e.ops) == 1:
             ops = {ast.Lt: "<", ast.LtE: "≤", ast.Gt: ">", ast.GtE: "≥", ast.Eq: "==", ast.NotEq: "!="}
             o = ops.get(type(e.ops[0]))
@@ -153,7 +185,21 @@ class _Tr:
             ch = _chain(s.value.func) or []
             if any(p in ("logger", "logging") for p in ch):
                 return self.stmts(rest)                               # log statements have no value
+            if ch and ch[-1] in self.effects:
+                self.ignored.append(ast.unparse(s))
+                return self.stmts(rest)                               # declared effect, no value
             raise Untranslatable(f"statement with an effect `{ast.unparse(s)}`")
+        if isinstance(s, ast.Assign) and len(s.targets) == 1 and isinstance(s.targets[0], ast.Name) and \
+                isinstance(s.value, ast.Call) and (s.value.args or s.value.keywords):
+            self.opaque.add(s.targets[0].id)                          # an object looked up by name
+            self.ignored.append(ast.unparse(s))
+            return self.stmts(rest)
+        if isinstance(s, ast.If) and not s.orelse and all(
+                isinstance(b, ast.Assign) and len(b.targets) == 1 and isinstance(b.targets[0], ast.Attribute)
+                and "assign:" + b.targets[0].attr in self.effects for b in s.body):
+            self.expr(s.test, "Bool")                                 # the condition must still make sense
+            self.ignored.append(ast.unparse(s).replace("\n", " "))
+            return self.stmts(rest)                                   # an effect-only branch
         if isinstance(s, ast.Return):
             if s.value is None:
                 raise Untranslatable("bare return")
@@ -179,7 +225,8 @@ class _Tr:
 RET = {"bool": "Bool", "float": "Rat", "int": "Rat"}
 
 
-def translate(repo: Path, rel: str, cls: str, func: str, lean_name: str, enums: tuple[str, ...] = ()) -> Gen:
+def translate(repo: Path, rel: str, cls: str, func: str, lean_name: str, enums: tuple[str, ...] = (),
+              effects: tuple[str, ...] = ()) -> Gen:
     path = repo / "src" / "pamiq_core" / rel
     try:
         src = path.read_text()
@@ -196,7 +243,7 @@ def translate(repo: Path, rel: str, cls: str, func: str, lean_name: str, enums: 
         raise Untranslatable(f"return annotation `{ann}` of {cls}.{func}")
     if len(fn.args.args) != 1 or fn.args.vararg or fn.args.kwarg or fn.args.kwonlyargs:
         raise Untranslatable(f"{cls}.{func} takes arguments")
-    tr = _Tr(fn, ret, set(enums))
+    tr = _Tr(fn, ret, set(enums), effects)
     body = tr.stmts(list(fn.body))
     text = ast.get_source_segment(src, fn) or ""
     return Gen(lean_name, f"{rel}:{cls}.{func}", hashlib.sha1(text.encode()).hexdigest(),
